@@ -330,6 +330,7 @@ static void op_fd_filestat(const Op& op) {
 static void op_fd_close(const Op& op) {
     int64_t fd = op.get("fd");
     MFd* e = entry(fd); bool was_live = e && e->live;
+    uint64_t faults_before = S->faults_fired;
     uint32_t r = (uint32_t)wcall(op, "fd_close", {(uint64_t)fd});
     if (!was_live) {
         if (r != 8) V("descriptor", std::string("fd_close:") + (e ? "second-close-not-EBADF" : "never-issued-not-EBADF"), "fd_close(" + std::to_string(fd) + ") returned " + std::to_string(r));
@@ -337,6 +338,11 @@ static void op_fd_close(const Op& op) {
         return;
     }
     if (e->stdio) { e->live = false; return; }
+    if (faults_before != S->faults_fired) {
+        // the host close failed and left the descriptor open: fd_close must report an error and the descriptor stays usable
+        if (r == 0) V("errno", "fd_close:injected-close-failure-not-reported", "host close() failed but fd_close returned success");
+        return;
+    }
     if (r != 0) { V("errno", "fd_close:failed-on-open-descriptor", "returned " + std::to_string(r)); return; }
     if (e->mfd >= 0) __real_close(e->mfd);
     e->live = false; e->mfd = -1;
